@@ -322,6 +322,8 @@ class Interp:
                 if m is not None:
                     return self.truth(self.call(BoundMethod(v, m), [], {}))
             return True
+        if isinstance(v, PyObj) and "__bool__" in v.attrs:
+            return self.truth(self.call(v.attrs["__bool__"], [], {}))
         if isinstance(v, (Closure, LibRef, RepoClass, PyFn, PyObj, BoundMethod, Partial, FmtStr)):
             return True
         if isinstance(v, tuple) and v and v[0] == "module":
@@ -974,6 +976,20 @@ class Interp:
         raise Unsupported(f"setattr on {v!r}")
 
     # subscripts -------------------------------------------------------------------
+    @staticmethod
+    def canon_index(idx):
+        """canonical form of an array index, so that equivalent spellings give the same term: trailing `...` and trailing full slices `:` are
+        dropped (x[a:, ...] = x[a:, :] = x[a:]), a one-element index tuple is its element"""
+        if isinstance(idx, tuple) and not (idx and idx[0] == "slice"):
+            items = list(idx)
+            full = lambda x: isinstance(x, tuple) and len(x) == 4 and x[0] == "slice" and x[1] is None and x[2] is None and x[3] is None  # noqa: E731
+            while items and (items[-1] is Ellipsis or full(items[-1])):
+                items.pop()
+            if len(items) == 1:
+                return items[0]
+            return tuple(items)
+        return idx
+
     def e_Subscript(self, node, env, module):
         v = self.eval(node.value, env, module)
         from .models_jax import AtProxy as _AP
@@ -992,6 +1008,10 @@ class Interp:
         idx = self.eval(node.slice, env, module)
         from .models_jax import AtProxy
 
+        if isinstance(v, AtProxy) or (is_z3(v) and v.sort() == U):
+            idx = self.canon_index(idx)
+            if is_z3(v) and isinstance(idx, tuple) and len(idx) == 4 and idx[0] == "slice":
+                return self.getslice(v, idx[1], idx[2], idx[3])  # x[a:b, ...] is x[a:b]
         if isinstance(v, AtProxy) and getattr(v.arr, "__cvec__", False):
             from .models_jax import CVec
 
